@@ -24,7 +24,7 @@ INFO = {
     "Conflict-resolved LR parsers (default strategies) may fail only with SyntaxError or, on lexically overlapping "
     "terminals, DisambiguationError located where all its tokens match.  Leaf kernels pos_to_line_col / "
     "get_line_col_at_position are run alone (len <= 6 / len <= 3).  A list-input case uses w: List[int] with custom recognisers.",
-    "bounds": {"quick": {"N": 3, "kernels": "pos_to_line_col len <= 6, get_line_col_at_position len <= 3 (4 thorough)", "list": "len <= 3, elements 0..3"}, "thorough": {"N": 4}},
+    "bounds": {"quick": {"N": 3, "kernels": "pos_to_line_col len <= 6, get_line_col_at_position len <= 3 (4 thorough)", "list": "len <= 3, elements 0..3"}, "thorough": {"N": "4 for the 14 shapes, 3 for 50 more stratified GF-tiny(3) grammars"}},
     "outside": "inputs longer than N; custom error hints (.pge files); error_recovery (C11)",
     "assumptions": ["realize-atomic marks only - message rendering runs for real", "reference: refcfg.Earley (farthest non-empty item set, terminals after the dot)"],
 }
@@ -46,12 +46,16 @@ def cases(tier, seed):
     out = []
     N = 3 if tier == "quick" else 4
     gs = [corpus.shape(n) for n in SHAPES_Q]
-    if tier != "quick":
-        gs += corpus.stratified(corpus.gf_tiny(3), 50, seed)
     for g in gs:
         for tb in ("LALR", "SLR"):
             out.append(_case(g, "glr", tb, N))
             out.append(_case(g, "lr", tb, N))
+    if tier != "quick":
+        # a measured full N=4 run over 64 more grammars did not fit in 100 min: the extra grammars stay at N=3
+        for g in corpus.stratified(corpus.gf_tiny(3), 50, seed):
+            for tb in ("LALR", "SLR"):
+                out.append(_case(g, "glr", tb, 3))
+                out.append(_case(g, "lr", tb, 3))
     for nm in LEX:
         out.append(_case(corpus.shape(nm), "glr", "LALR", N))
         out.append(_case(corpus.shape(nm), "lr", "LALR", N))
